@@ -214,6 +214,11 @@ func BuildLedger(t *Trans) *Ledger {
 			}
 		case a.Kind == "E":
 			s.Cause = "expiry"
+			if r := pre.Reqs[g.id]; r != nil && r.ExpirationHeight > pre.H {
+				// taken out of the pending set (refunded, its provider slashed) before the block it may still be answered in has ended
+				L.Problems = append(L.Problems, LedgerProblem{"early", "request-expires-only-when-its-expiry-block-ends", "early",
+					fmt.Sprintf("request %s expires at height %d but was expired at the end of block %d", shortReq(g.id), r.ExpirationHeight, pre.H)})
+			}
 		}
 		L.Settled = append(L.Settled, s)
 		switch s.Cause {
